@@ -27,7 +27,7 @@ DEPENDS = ["C13", "C01"]      # _safely_run_func's contract: nothing escapes wit
 
 
 def build(E, tier):
-    pm.verify_pooled_client(E, methods=pm.READS)
+    pm.verify_pooled_client(E, methods=pm.READS + ["stats"])
     cm.verify_fetch_cmd(E, names=("get", "gets", "gat", "gats") if tier == "thorough" else ("get", "gats"))
     cm.verify_fetch_many(E, names=("get", "gets") if tier == "thorough" else ("get",),
                          iter_kinds=("re-iterable", "one-shot") if tier == "thorough" else ("one-shot",))
